@@ -2,7 +2,8 @@
 C20 niche/tag-byte clause."""
 import re
 from facts import callee_name, strip_refs
-from guards import guards_at, describe, eval_int
+from guards import guards_at, describe, eval_int, cmp_facts, inlined_calls
+from typestate import WRITE_PRIMS
 from typestate import Solver, T
 
 LB = "repr::last_byte::LastByte"
@@ -86,24 +87,15 @@ def rule_T1(ctx, rule="T1-tags"):
     ln = F.bodies.get("repr::Repr::len")
     if ln and F.ptr_bits == 64:
         txt = " ".join(describe(ln, ("call", bb)) for bb, _ in ln.calls())
+        txt = txt.replace("core::cmp::Ord::min(", "min(")
         ok = "wrapping_sub((repr::Repr::last_byte(p1) as usize), (const:%s::MASK_1100_0000 as usize))" % LB in txt and "min(" in txt and "const:repr::MAX_INLINE_SIZE" in txt
         ctx.ob(rule, ln.path, "inline-len-decoding", ok, how="inline len = min(last_byte - 0xC0 (wrapping), MAX_INLINE_SIZE)", detail="Repr::len decodes the inline length differently: %s" % txt[:200])
-        sw = [bb for bb in range(ln.n) if ln.term(bb)["k"] == "switch" and not ln.term(bb).get("expn")]
-        thr = []
-        for bb in sw:
-            e = ln.origin_operand(ln.term(bb)["discr"])
-            if e[0] == "bin":
-                thr.append((e[1], describe(ln, e[2]), eval_int(strip_refs(e[3]))))
-        ctx.ob(rule, ln.path, "inline-vs-heap-test", ("Lt", "repr::Repr::last_byte(p1)", hm) in thr, how="inline iff last_byte < HeapMarker", detail="Repr::len selects the inline length on %s" % thr)
+        facts = [(d, lo, hi) for d, lo, hi, _, _ in cmp_facts(ln) if d == "repr::Repr::last_byte(p1)"]
+        ctx.ob(rule, ln.path, "inline-vs-heap-test", any((lo is None and hi == hm - 1) or (lo == hm and hi is None) for _, lo, hi in facts), how="inline iff last_byte < HeapMarker (as an interval: %s)" % facts[:2], detail="Repr::len selects the inline length on %s" % facts)
     ab = F.bodies.get("repr::Repr::as_bytes")
     if ab:
-        thr = []
-        for bb in range(ab.n):
-            if ab.term(bb)["k"] == "switch":
-                e = ab.origin_operand(ab.term(bb)["discr"])
-                if e[0] == "bin":
-                    thr.append((e[1], describe(ab, e[2]), eval_int(strip_refs(e[3]))))
-        ctx.ob(rule, ab.path, "pointer-select", ("Ge", "repr::Repr::last_byte(p1)", hm) in thr, how="data pointer = self.0 iff last_byte >= HeapMarker, else the handle itself", detail="as_bytes selects the pointer on %s" % thr)
+        facts = [(d, lo, hi) for d, lo, hi, _, _ in cmp_facts(ab) if d == "repr::Repr::last_byte(p1)"]
+        ctx.ob(rule, ab.path, "pointer-select", any((lo == hm and hi is None) or (lo is None and hi == hm - 1) for _, lo, hi in facts), how="data pointer = self.0 iff last_byte >= HeapMarker, else the handle itself", detail="as_bytes selects the pointer on %s" % facts)
         for bb, t in ab.calls():
             if callee_name(t).startswith("core::slice::raw::from_raw_parts"):
                 l = describe(ab, ab.origin_operand(t["args"][1]))
@@ -123,7 +115,7 @@ def rule_T3(ctx, rule="T3-publish"):
         n += 1
         writes = []
         for bb, t in b.calls():
-            if callee_name(t) in WRITE_CALLS and any(bb in b.reachable(v, unwind=False) for v in views):
+            if (callee_name(t) in WRITE_CALLS or callee_name(t) in WRITE_PRIMS) and any(bb in b.reachable(v, unwind=False) for v in views):
                 writes.append(bb)
         for bb, blk in enumerate(b.blocks):
             for s in blk["stmts"]:
